@@ -1222,7 +1222,9 @@ func findEarlierPageBreak(context *layoutContext, children []Box, absoluteBoxes,
 							}
 						}
 					}
-					newChildren = append(children[:index], newChild)
+					// (a copy: children is read again below, and appending in place
+					// would write the new child and the footers over the next children)
+					newChildren = append(append([]Box(nil), children[:index]...), newChild)
 
 					// Re-add footer at the end of split table
 					if bo.TableRowGroupT.IsInstance(child_) {
